@@ -1078,3 +1078,541 @@ pub fn minimise_table(plan: &TablePlan, v: &Violation) -> (TablePlan, Violation)
 
 #[allow(dead_code)]
 pub fn unused_path(_: &PathBuf) {}
+
+// ---------------------------------------------------------------------------------------------
+// C12 at process level: arbitrary bytes x option sets x file-system faults; exit status oracle
+// ---------------------------------------------------------------------------------------------
+
+use crate::inputs::{gen_stored_formula, gen_stored_ordering, nesting_bound, StoredInput, NESTING_BOUND};
+
+#[derive(Clone, Debug, PartialEq, Eq, Serialize, Deserialize)]
+pub enum FsFault {
+    InputMissing,
+    InputIsDir,
+    OrderingMissing,
+    OrderingIsDir,
+    DotDirMissing,
+    DotFull,
+    TreeDirMissing,
+    TreeFull,
+}
+
+#[derive(Clone, Debug, PartialEq, Eq, Serialize, Deserialize)]
+pub struct RobustPlan {
+    pub formula: StoredInput,
+    pub ordering: Option<StoredInput>,
+    pub channel: Channel,
+    pub t: bool,
+    pub v: bool,
+    pub m: bool,
+    pub r: bool,
+    pub b: Option<usize>,
+    pub filter: Option<String>,
+    pub retain: Option<String>,
+    pub dot: bool,
+    pub parsetree: bool,
+    pub fs_fault: Option<FsFault>,
+}
+
+pub fn gen_robust_plan(rng: &mut Prng) -> RobustPlan {
+    let formula = gen_stored_formula(rng);
+    let ordering = if rng.chance(1, 3) {
+        let text = String::from_utf8_lossy(&formula.bytes().0).to_string();
+        let mut names: Vec<String> = Vec::new();
+        for w in text.split(|c: char| !(c.is_alphanumeric() || c == '_' || c == '\'')) {
+            if !w.is_empty() && !w.chars().next().is_some_and(|c| c.is_numeric()) && !fast::KEYWORDS.contains(&w) && !names.iter().any(|n| n == w) && names.len() < 12 {
+                names.push(w.to_string());
+            }
+        }
+        Some(gen_stored_ordering(rng, &names))
+    } else {
+        None
+    };
+    let spell = |rng: &mut Prng| -> String {
+        rng.pick(&["any", "Any", "a", "A", "*", "true", "True", "t", "T", "1", "false", "False", "f", "F", "0", "maybe", "", "TRUE", "2"]).to_string()
+    };
+    let fs_fault = if rng.chance(1, 5) {
+        Some(
+            rng.pick(&[
+                FsFault::InputMissing,
+                FsFault::InputIsDir,
+                FsFault::OrderingMissing,
+                FsFault::OrderingIsDir,
+                FsFault::DotDirMissing,
+                FsFault::DotFull,
+                FsFault::TreeDirMissing,
+                FsFault::TreeFull,
+            ])
+            .clone(),
+        )
+    } else {
+        None
+    };
+    RobustPlan {
+        formula,
+        ordering,
+        channel: gen_channel(rng),
+        t: rng.chance(2, 3),
+        v: rng.chance(1, 3),
+        m: rng.chance(1, 4),
+        r: rng.chance(1, 4),
+        b: if rng.chance(1, 6) { Some(rng.range(0, 3)) } else { None },
+        filter: if rng.coin() { Some(spell(rng)) } else { None },
+        retain: if rng.chance(1, 3) { Some(spell(rng)) } else { None },
+        dot: rng.chance(1, 3),
+        parsetree: rng.chance(1, 4),
+        fs_fault,
+    }
+}
+
+pub fn execute_robust(p: &RobustPlan) -> RunOutcome {
+    let mut out = RunOutcome::default();
+    let mut stats = Stats::new();
+    out.plan_digest = digest_bytes(&serde_json::to_vec(p).expect("plan serialises"));
+    let (bytes, fired) = p.formula.bytes();
+    for k in &fired {
+        bump(&mut stats, &format!("fault.{k}"));
+    }
+    let judged = nesting_bound(&bytes) <= NESTING_BOUND;
+    let dir = run_dir("rob");
+    // --evaluate needs an argv-representable text
+    let mut channel = p.channel.clone();
+    if channel == Channel::Evaluate && (std::str::from_utf8(&bytes).is_err() || bytes.contains(&0)) {
+        channel = Channel::File;
+    }
+    let mut args: Vec<String> = Vec::new();
+    for (flag, on) in [("-t", p.t), ("-v", p.v), ("-m", p.m), ("-r", p.r)] {
+        if on {
+            args.push(flag.into());
+        }
+    }
+    if let Some(n) = p.b {
+        args.push("-b".into());
+        args.push(n.to_string());
+    }
+    if let Some(f) = &p.filter {
+        args.push(format!("--filter={f}"));
+    }
+    if let Some(c) = &p.retain {
+        args.push(format!("--retain-choices={c}"));
+    }
+    let fault = p.fs_fault.clone();
+    let mut expect_failure = false;
+    let mut dot_path = dir.join("out.dot");
+    let mut tree_path = dir.join("tree.dot");
+    let mut want_dot = p.dot;
+    let mut want_tree = p.parsetree;
+    match &fault {
+        Some(FsFault::DotDirMissing) => {
+            dot_path = dir.join("no-such-dir/out.dot");
+            want_dot = true;
+        }
+        Some(FsFault::DotFull) => {
+            dot_path = PathBuf::from("/dev/full");
+            want_dot = true;
+        }
+        Some(FsFault::TreeDirMissing) => {
+            tree_path = dir.join("no-such-dir/tree.dot");
+            want_tree = true;
+        }
+        Some(FsFault::TreeFull) => {
+            tree_path = PathBuf::from("/dev/full");
+            want_tree = true;
+        }
+        _ => {}
+    }
+    if want_dot {
+        args.push("-d".into());
+        args.push(dot_path.to_string_lossy().to_string());
+    }
+    if want_tree {
+        args.push("-p".into());
+        args.push(tree_path.to_string_lossy().to_string());
+    }
+    let ord_bytes = p.ordering.as_ref().map(|o| o.bytes().0);
+    let mut ordering_arg: Option<Vec<u8>> = ord_bytes.clone();
+    // input-side file-system faults are staged by hand
+    let sp = match &fault {
+        Some(FsFault::InputMissing) | Some(FsFault::InputIsDir) => {
+            let path = dir.join("missing-input");
+            if matches!(fault, Some(FsFault::InputIsDir)) {
+                std::fs::create_dir_all(&path).expect("tmpfs mkdir");
+            }
+            let mut a = vec![path.to_string_lossy().to_string()];
+            a.extend(args.iter().cloned());
+            expect_failure = true;
+            crate::sims::rgsim::spawn("rsbdd", &a, &dir, None, &[("RSBDD_VERIF_BUDGET", CHILD_BUDGET.to_string())])
+        }
+        Some(FsFault::OrderingMissing) | Some(FsFault::OrderingIsDir) => {
+            let path = dir.join("missing-ordering");
+            if matches!(fault, Some(FsFault::OrderingIsDir)) {
+                std::fs::create_dir_all(&path).expect("tmpfs mkdir");
+            }
+            let _ = &ordering_arg;
+            let mut a = args.clone();
+            a.push("-o".into());
+            a.push(path.to_string_lossy().to_string());
+            expect_failure = true;
+            run_rsbdd(
+                &dir,
+                &Invocation {
+                    text: &bytes,
+                    channel: &channel,
+                    args: a,
+                    ordering: None,
+                },
+            )
+        }
+        _ => run_rsbdd(
+            &dir,
+            &Invocation {
+                text: &bytes,
+                channel: &channel,
+                args: args.clone(),
+                ordering: ordering_arg.as_deref(),
+            },
+        ),
+    };
+    if let Some(f) = &fault {
+        bump(&mut stats, &format!("fault.fs-{f:?}").to_lowercase());
+    }
+    bump(&mut stats, &format!("probe.channel.{}", channel.name()));
+    out.steps = 1;
+    let mut vs = Vec::new();
+    let code = sp.status;
+    if code == Some(97) {
+        out.unjudged = Some("tick budget exhausted in the child process".into());
+    } else if sp.signal || code == Some(101) || !matches!(code, Some(0) | Some(1) | Some(2)) {
+        vs.push(viol(
+            "C12",
+            "P1",
+            &panic_site(&sp.stderr),
+            format!(
+                "rsbdd {:?} on {} input bytes via {} ends with {:?}{}: {}",
+                args,
+                bytes.len(),
+                channel.name(),
+                code,
+                if sp.signal { " (signal)" } else { "" },
+                String::from_utf8_lossy(&sp.stderr).lines().rev().take(3).collect::<Vec<_>>().join(" | ")
+            ),
+        ));
+    } else {
+        bump(&mut stats, &format!("probe.exit.{}", code.unwrap_or(-1)));
+        // a staged fault that is certain to be hit must be reported: non-zero exit with a message
+        let certain = match &fault {
+            Some(FsFault::InputMissing) | Some(FsFault::InputIsDir) | Some(FsFault::OrderingMissing) | Some(FsFault::OrderingIsDir) => expect_failure,
+            _ => false,
+        };
+        if certain && (code == Some(0) || sp.stderr.is_empty()) {
+            vs.push(viol("C12", "P2", &format!("{:?}", fault.as_ref().expect("fault")), format!("a missing / unreadable input path was not reported: exit {:?}", code)));
+        }
+        // output-side faults are only reached when parsing succeeded: exit 0 then means a swallowed error
+        if matches!(fault, Some(FsFault::DotDirMissing) | Some(FsFault::DotFull) | Some(FsFault::TreeDirMissing) | Some(FsFault::TreeFull)) && code == Some(0) {
+            // /dev/full accepts an empty write: a diagram export always writes at least the header, so this is an error
+            vs.push(viol("C12", "P3", &format!("{:?}", fault.as_ref().expect("fault")), "an output file that cannot be created / written was not reported (exit 0)".into()));
+        }
+    }
+    let _ = std::fs::remove_dir_all(&dir);
+    out.nontrivial = !fired.is_empty() || fault.is_some();
+    out.trace_digest = mix(&[code.unwrap_or(-1) as u64, digest_bytes(&sp.stdout)]);
+    out.state_digests.push(mix(&[code.unwrap_or(-1) as u64, digest_bytes(&sp.stdout)]));
+    if judged {
+        out.violations = vs;
+    } else {
+        if out.unjudged.is_none() {
+            out.unjudged = Some("nesting bound above 200".into());
+        }
+        if !vs.is_empty() {
+            bump(&mut stats, "probe.failure_outside_nesting_bound");
+        }
+    }
+    out.stats = stats;
+    out
+}
+
+pub fn minimise_robust(plan: &RobustPlan, v: &Violation) -> (RobustPlan, Violation) {
+    let same = |p: &RobustPlan| -> Option<Violation> {
+        execute_robust(p).violations.into_iter().find(|x| x.oracle == v.oracle && x.site == v.site)
+    };
+    let mut best = plan.clone();
+    let mut best_v = v.clone();
+    let mut budget = 300usize;
+    {
+        let mut c = best.clone();
+        c.formula.base = c.formula.bytes().0;
+        c.formula.faults.clear();
+        if let Some(o) = &mut c.ordering {
+            o.base = o.bytes().0;
+            o.faults.clear();
+        }
+        if let Some(nv) = same(&c) {
+            best = c;
+            best_v = nv;
+        }
+    }
+    for k in 0..11 {
+        let mut c = best.clone();
+        match k {
+            0 => c.ordering = None,
+            1 => c.fs_fault = None,
+            2 => c.b = None,
+            3 => c.filter = None,
+            4 => c.retain = None,
+            5 => c.dot = false,
+            6 => c.parsetree = false,
+            7 => c.m = false,
+            8 => c.r = false,
+            9 => c.v = false,
+            _ => c.channel = Channel::File,
+        }
+        if c != best && budget > 0 {
+            budget -= 1;
+            if let Some(nv) = same(&c) {
+                best = c;
+                best_v = nv;
+            }
+        }
+    }
+    if best.formula.base.len() > 1 {
+        let b2 = best.clone();
+        let kept = crate::core::ddmin(best.formula.base.clone(), &mut budget, &mut |cand| {
+            let mut c = b2.clone();
+            c.formula.base = cand.to_vec();
+            same(&c).is_some()
+        });
+        let mut c = best.clone();
+        c.formula.base = kept;
+        if let Some(nv) = same(&c) {
+            best = c;
+            best_v = nv;
+        }
+    }
+    if let Some(o) = best.ordering.clone() {
+        if o.base.len() > 1 {
+            let b2 = best.clone();
+            let kept = crate::core::ddmin(o.base.clone(), &mut budget, &mut |cand| {
+                let mut c = b2.clone();
+                if let Some(oo) = &mut c.ordering {
+                    oo.base = cand.to_vec();
+                }
+                same(&c).is_some()
+            });
+            let mut c = best.clone();
+            if let Some(oo) = &mut c.ordering {
+                oo.base = kept;
+            }
+            if let Some(nv) = same(&c) {
+                best = c;
+                best_v = nv;
+            }
+        }
+    }
+    (best, best_v)
+}
+
+// ---------------------------------------------------------------------------------------------
+// C14-D7: the -d / -p files written by the binary
+// ---------------------------------------------------------------------------------------------
+
+use crate::model::dotread::parse_dot;
+
+#[derive(Clone, Debug, PartialEq, Eq, Serialize, Deserialize)]
+pub struct ExportPlan {
+    pub formula: F,
+    pub print_seed: u64,
+    pub noise: u8,
+    pub channel: Channel,
+    pub filter: u8,
+    pub filter_spelling: String,
+    pub m: bool,
+    pub ordering: Option<OrderingSpec>,
+}
+
+pub fn gen_export_plan(rng: &mut Prng) -> ExportPlan {
+    let cfg = fast::gen_cfg(rng, 6, 5);
+    let mut formula = fast::gen_formula(rng, &cfg);
+    if rng.chance(1, 3) {
+        formula = F::Bin(fast::BinOp::And, Box::new(formula.clone()), Box::new(F::Not(Box::new(F::Not(Box::new(formula))))));
+    }
+    let names = formula.names_in_text_order();
+    let filter = rng.below(3) as u8;
+    ExportPlan {
+        formula,
+        print_seed: rng.next_u64(),
+        noise: rng.below(3) as u8,
+        channel: gen_channel(rng),
+        filter,
+        filter_spelling: rng.pick(FILTER_SPELLINGS[filter as usize]).to_string(),
+        m: rng.chance(1, 6),
+        ordering: if rng.chance(1, 4) { Some(gen_ordering(rng, &names)) } else { None },
+    }
+}
+
+pub fn execute_export(p: &ExportPlan) -> RunOutcome {
+    use rsbdd::parser::ParsedFormula;
+    use rsbdd::parser_io::SymbolicParseTree;
+    let mut out = RunOutcome::default();
+    let mut stats = Stats::new();
+    let mut vs = Vec::new();
+    out.plan_digest = digest_bytes(&serde_json::to_vec(p).expect("plan serialises"));
+    let mut prng = Prng::new(p.print_seed);
+    let text = Printer::noisy(&mut prng, p.noise).print(&p.formula);
+    let names = p.formula.names_in_text_order();
+    let func = match Evaluator::new(&names).and_then(|mut ev| ev.eval(&p.formula)) {
+        Ok(f) => f,
+        Err(e) => {
+            out.unjudged = Some(format!("reference model: {e:?}"));
+            return out;
+        }
+    };
+    let dir = run_dir("exp");
+    let dot_path = dir.join("out.dot");
+    let tree_path = dir.join("tree.dot");
+    let mut args = vec![
+        "-d".to_string(),
+        dot_path.to_string_lossy().to_string(),
+        "-p".to_string(),
+        tree_path.to_string_lossy().to_string(),
+        "-f".to_string(),
+        p.filter_spelling.clone(),
+    ];
+    if p.m {
+        args.push("-m".into());
+    }
+    let ord = p.ordering.as_ref().map(|o| o.bytes());
+    let sp = run_rsbdd(
+        &dir,
+        &Invocation {
+            text: text.as_bytes(),
+            channel: &p.channel,
+            args,
+            ordering: ord.as_deref(),
+        },
+    );
+    out.steps = 1;
+    bump(&mut stats, &format!("fault.channel-{}", p.channel.name()));
+    if sp.status == Some(97) {
+        out.unjudged = Some("tick budget exhausted in the child process".into());
+    } else if sp.status != Some(0) {
+        vs.push(viol("C14", "D7", "exit", format!("rsbdd -d -p on `{text}` exits {:?}: {}", sp.status, String::from_utf8_lossy(&sp.stderr).lines().last().unwrap_or(""))));
+    } else {
+        // the diagram file
+        let dot = std::fs::read(&dot_path).unwrap_or_default();
+        match parse_dot(&String::from_utf8_lossy(&dot)) {
+            Err(e) => vs.push(viol("C14", "D7", "dot-syntax", format!("-d file of `{text}` does not read back: {e}"))),
+            Ok(g) => {
+                if let Err(e) = g.well_formed() {
+                    vs.push(viol("C14", "D7", "dot-declarations", e));
+                } else {
+                    let dropped = match p.filter {
+                        1 => Some(("n_false", false)),
+                        2 => Some(("n_true", true)),
+                        _ => None,
+                    };
+                    if let Some((d, _)) = dropped {
+                        if g.nodes.iter().any(|(id, _)| id == d) {
+                            vs.push(viol("C14", "D7", "filter", format!("-d with filter {} still declares {d}", p.filter_spelling)));
+                        }
+                    }
+                    let roots = g.roots();
+                    let n = names.len();
+                    // evaluate; an edge missing because of the filter leads to the dropped leaf
+                    let mut got = TT::konst(n, false);
+                    let mut ok = true;
+                    if g.nodes.is_empty() {
+                        // only possible when the result is the dropped leaf itself
+                        match dropped {
+                            Some((_, val)) => {
+                                if val {
+                                    got = TT::konst(n, true);
+                                }
+                            }
+                            None => {
+                                vs.push(viol("C14", "D7", "empty", "-d file declares no node at all under filter Any".into()));
+                                ok = false;
+                            }
+                        }
+                    } else if roots.len() != 1 {
+                        vs.push(viol("C14", "D7", "root", format!("-d file has {} nodes without incoming edge", roots.len())));
+                        ok = false;
+                    } else {
+                        'outer: for a in 0..(1usize << n) {
+                            let mut cur = roots[0].to_string();
+                            loop {
+                                if cur == "n_true" {
+                                    got.set(a, true);
+                                    break;
+                                }
+                                if cur == "n_false" {
+                                    break;
+                                }
+                                let label = g.label_of(&cur).unwrap_or("");
+                                let Some(i) = names.iter().position(|x| x == label) else {
+                                    vs.push(viol("C14", "D7", "label", format!("-d file tests {label:?}, not a variable of `{text}`")));
+                                    ok = false;
+                                    break 'outer;
+                                };
+                                let want = if (a >> i) & 1 == 1 { "T" } else { "F" };
+                                let next: Vec<String> = g.out(&cur).iter().filter(|(l, _)| *l == want).map(|(_, t)| t.to_string()).collect();
+                                match (next.len(), dropped) {
+                                    (1, _) => cur = next[0].clone(),
+                                    (0, Some((_, val))) => {
+                                        if val {
+                                            got.set(a, true);
+                                        }
+                                        break;
+                                    }
+                                    _ => {
+                                        vs.push(viol("C14", "D7", "edges", format!("-d file: node {cur} has {} {want}-edges", next.len())));
+                                        ok = false;
+                                        break 'outer;
+                                    }
+                                }
+                            }
+                        }
+                    }
+                    if ok {
+                        if !p.m {
+                            if got != func {
+                                vs.push(viol("C14", "D7", "function", format!("-d file of `{text}` (filter {}) denotes a different function than the formula", p.filter_spelling)));
+                            }
+                        } else if !got.le(&func) || got.is_false() != func.is_false() {
+                            vs.push(viol("C14", "D7", "model", format!("-d -m file of `{text}` is not a model of the formula")));
+                        }
+                        if !func.is_true() && !func.is_false() {
+                            out.nontrivial = true;
+                        }
+                    }
+                }
+            }
+        }
+        // the syntax-tree file must be what the library exports for the same text (ids are indices)
+        let tree = std::fs::read(&tree_path).unwrap_or_default();
+        let ordering_syms = p.ordering.as_ref().map(|o| {
+            o.names()
+                .into_iter()
+                .enumerate()
+                .map(|(i, n)| rsbdd::NamedSymbol { name: Rc::new(n), id: i })
+                .collect::<Vec<_>>()
+        });
+        let lib = catch(|| {
+            let mut rd = std::io::BufReader::new(text.as_bytes());
+            let pf = ParsedFormula::new(&mut rd, ordering_syms)?;
+            let mut v = Vec::new();
+            SymbolicParseTree::new(&pf.bdd).render_dot(&mut v)?;
+            Ok::<_, std::io::Error>(v)
+        });
+        if let Caught::Ok(Ok(v)) = lib {
+            if v != tree {
+                vs.push(viol("C14", "D7", "tree-file", format!("-p file of `{text}` differs from the library's export of the same text")));
+            }
+        }
+    }
+    let _ = std::fs::remove_dir_all(&dir);
+    out.trace_digest = mix(&[sp.status.unwrap_or(-1) as u64, vs.len() as u64, digest_bytes(text.as_bytes())]);
+    out.state_digests.push(func.digest());
+    out.violations = vs;
+    out.stats = stats;
+    out
+}
